@@ -405,11 +405,92 @@ func (c10) Gen(r *rand.Rand, tier string, i int) any {
 			return c10Case{Kind: "source", Input: []byte(sb.String()), Via: "builtin-boundary-unit"}
 		}
 		seed = []byte(sb.String())
+	case 5:
+		// a unit around a generated declaration: descriptor atoms of every kind the library interprets (also the
+		// ones it only writes itself), with right and wrong argument counts, bound rows shorter and longer than
+		// the arity, inclusion constraints; followed by facts and rules for the declared predicate
+		text := c10DeclUnit(r)
+		if r.Intn(2) == 0 {
+			return c10Case{Kind: "source", Input: []byte(text), Via: "declaration-unit"}
+		}
+		seed = []byte(text)
 	default:
 		seed = c10Seeds[r.Intn(len(c10Seeds))]
 	}
 	b, how := c10Mutate(r, seed)
 	return c10Case{Kind: "source", Input: b, Via: how}
+}
+
+var c10Descr = []string{"doc(\"d\")", "doc()", "arg(X, \"first\")", "arg(Q, \"no such\")", "mode('+', '-')", "mode('+')", "mode('-', '-', '+')", "mode('?', '+')", "mode(1)",
+	"fundep([X], [Y])", "fundep([Y], [X])", "fundep([X], [Q])", "fundep([], [X])", "fundep(X, Y)", "merge([Y], 'mrg')", "merge([X], 'nosuch')", "merge(Y, mrg)", "deferred()", "synthetic()",
+	"extensional()", "reflects(/a)", "reflects(/a/b)", "reflects(\"x\")", "reflects()", "temporal()", "internal:maybe_temporal()", "private()", "external()", "name(/n)", "desugared()",
+	"mode('+', '-'), mode('-', '+')", "unknown_descr(1)", "fundep([X], [Y]), merge([Y], 'mrg')"}
+
+var c10BoundTypes = []string{"/any", "/number", "/string", "/name", "/a", "/a/b", "fn:List(/number)", ".List</string>", "fn:Pair(/name, /number)", "fn:Map(/string, /any)", "fn:Struct(/f, /number)",
+	"fn:Struct(/f, /number, fn:opt(/g, /string))", "fn:Union(/a, /number)", "fn:Union()", "fn:Singleton(/a/b)", "fn:Tuple(/number, /number, /number)", "fn:Option(/number)", "fn:List()", "fn:Pair(/number)",
+	"fn:Fun(/number, /number)", "fn:Rel(/number)", "X", "1", "\"s\"", "fn:plus(1, 2)", "/time", "/duration", "/float64", "/bytes", "fn:TaggedUnion(/kind, /a, fn:Struct(/f, /number))"}
+
+func c10DeclUnit(r *rand.Rand) string {
+	ar := r.Intn(4)
+	vars := []string{"X", "Y", "Z"}[:ar]
+	head := "dp(" + strings.Join(vars, ", ") + ")"
+	var sb strings.Builder
+	if r.Intn(4) == 0 {
+		sb.WriteString("mrg(A, B, C) :- A < B, C = B. mrg(A, B, C) :- B <= A, C = A.\n")
+	}
+	sb.WriteString("Decl " + head)
+	if r.Intn(3) > 0 {
+		var ds []string
+		for k := 1 + r.Intn(3); k > 0; k-- {
+			ds = append(ds, c10Descr[r.Intn(len(c10Descr))])
+		}
+		sb.WriteString(" descr [" + strings.Join(ds, ", ") + "]")
+	}
+	for k := r.Intn(3); k > 0; k-- {
+		n := ar
+		switch r.Intn(6) {
+		case 0:
+			n = ar + 1 + r.Intn(2)
+		case 1:
+			if ar > 0 {
+				n = ar - 1
+			}
+		}
+		row := make([]string, n)
+		for j := range row {
+			row[j] = c10BoundTypes[r.Intn(len(c10BoundTypes))]
+		}
+		sb.WriteString(" bound [" + strings.Join(row, ", ") + "]")
+	}
+	if r.Intn(5) == 0 {
+		sb.WriteString(" inclusion [" + []string{"dq(X)", "dp(X)", "dq(X), dq(Y)", "nosuch(X)", ":lt(X, 3)"}[r.Intn(5)] + "]")
+	}
+	sb.WriteString(".\n")
+	if r.Intn(4) == 0 {
+		sb.WriteString("Decl dq(X) bound [" + c10BoundTypes[r.Intn(len(c10BoundTypes))] + "].\ndq(1). dq(/a).\n")
+	}
+	consts := []string{"1", "2", "/a", "/a/b", "\"s\"", "[1, 2]", "fn:pair(/a, 1)", "{/f: 1}", "[\"k\": 1]", "3.5", "X"}
+	for k := r.Intn(4); k > 0; k-- {
+		args := make([]string, ar)
+		for j := range args {
+			args[j] = consts[r.Intn(len(consts))]
+		}
+		fact := "dp(" + strings.Join(args, ", ") + ")"
+		switch r.Intn(5) {
+		case 0:
+			sb.WriteString(fact + " :- dsrc(" + strings.Join(vars, ", ") + ").\n")
+		case 1:
+			sb.WriteString(head + " :- " + fact + ".\n")
+		case 2:
+			sb.WriteString(fact + "@[2024-01-01T00:00:00Z, 2024-01-02T00:00:00Z].\n")
+		default:
+			sb.WriteString(fact + ".\n")
+		}
+	}
+	if r.Intn(3) == 0 {
+		sb.WriteString("duse(" + strings.Join(vars, ", ") + ") :- " + head + ".\n")
+	}
+	return sb.String()
 }
 
 func (c10) Decode(raw json.RawMessage) (any, error) {
